@@ -1251,7 +1251,7 @@ FINDINGS = {
     "F3": ("fse-rename-pair-split-across-batches", {"N"},
            "the two ItemRenamed events of one rename arrive in different callback batches: deleted + created instead of "
            "one moved event"),
-    "F4": ("fse-renamed-flag-ambiguity-back-to-back", {"R"},
+    "F4": ("fse-renamed-flag-ambiguity-back-to-back", {"R", "F"},       # F: a mis-paired moved event may name a deep path
            "one item is renamed / moved more than once before the batch is translated (or a removed item's inode number is "
            "re-used by an entry moved in before the batch is translated): the emitter pairs an ItemRenamed event with the "
            "NEXT ItemRenamed event of the same inode, whatever it means"),
@@ -1503,7 +1503,7 @@ NEG_RUNS = {  # finding -> (module, cfg, invariant TLC must find violated)
     "F4": ("FSEventsXlat", "FSEventsXlat_neg_F4.cfg", "Xlat_ReplicaMatches"),
     "view": ("FSEventsXlat", "FSEventsXlat_neg_view.cfg", "Xlat_ReplicaMatches"),
 }
-FIXED["view"] = "nobody - a seeded mutant (_fs_view.add/discard pair dropped from the created+removed branch): sensitivity"
+SEEDED = {"view": "the created+removed branch without its _fs_view.add / discard pair"}
 
 def _frees_then_creates(tree, ops):
     """Does a later operation create an entry after an earlier one removed one (so that an inode number can be re-used)?"""
@@ -1711,11 +1711,12 @@ def run(c: checklib.Check):
             if want not in r.violated:
                 c.machinery_failure(f"{cfg}: the model does not reproduce finding {fid} (expected {want} violated, got "
                                     f"{r.violated} {r.errors[:2]})")
-            how = (f"fixed in /repo by {FIXED[fid]}: the switch models the other code" if fid in FIXED else
+            how = (f"fixed in /repo by {FIXED[fid]}: the switch models the old code" if fid in FIXED else
+                   f"a seeded mutant of the emitter ({SEEDED[fid]}): sensitivity of the model" if fid in SEEDED else
                    "also observed on the real emitter" if fid in observed else
                    "NOT observed on the real emitter: model drift")
             c.note(f"TLC {cfg}: {want} violated as expected (finding {fid}, {how}), {r.distinct} states, {r.wall:.1f}s")
-            if fid not in observed and fid not in FIXED:
+            if fid not in observed and fid not in FIXED and fid not in SEEDED:
                 c.cov["drift_traces"] += 1
         else:
             for act in DESIGN_RUNS[name][3]:
